@@ -172,9 +172,7 @@ theorem tuples_iter_bounded (p : TVD) (hac : p.ac ≤ 65535) :
   have hall := items_all (tvNext p) (fun s => TInv p s ∧ s.h.data.length ≤ p.headerData.length)
     (fun t => ∃ d', tvhRead d' p.ac = some t.hdr ∧ d'.length ≤ p.headerData.length)
     (fun s hi => ⟨hInv s hi.1, by have := (tvNext_facts p hac s hi.1).2.2.2.1; omega⟩)
-    (fun s a hi hy => by
-      obtain ⟨d', h1, h2⟩ := ((tvNext_facts p hac s hi.1).2.2.2.2.2 a hy).1
-      exact ⟨d', h1, by omega⟩)
+    (fun s a hi hy => ⟨s.h.data, ((tvNext_facts p hac s hi.1).2.2.2.2.2 a hy).1, hi.2⟩)
     _ _ _ ⟨h0, by simp [TVD.tuplesInit]⟩ he
   refine ⟨evs, he, by simpa [TVD.tuplesInit] using hl, tvcCount_le _, hnt, ?_, ?_, hall⟩
   · have : weight (fun _ : TV => 4) evs = 4 * (items evs).length := by
@@ -299,6 +297,38 @@ theorem cvar_walk_safe (d : List Nat) (ac : Nat) (hac : ac ≤ 65535) (p : TVD)
       omega
     obtain ⟨dv, h1, h2, h3⟩ := tuple_deltas_bounded p t d' hac' hr false
     exact ⟨⟨d', hpa ▸ hr⟩, by omega, dv, h1, by omega, h3⟩
+
+/-! ## `active_tuples_at`, `Cvar::deltas` -/
+
+/-- **`active_tuples_at` is bounded by `tuples()`**: it yields a sub-sequence of the tuples (at most
+`count & 0x0FFF`), each with its `compute_scalar` value.  (`…_partial`: `hk` is C20's
+`tupleScalar_no_trap`, see `computeScalar_no_panic_partial`; `hsh` / `hbytes` say the buffers hold bytes.) -/
+theorem active_tuples_bounded_partial (p : TVD) (hac : p.ac ≤ 65535) (coords : List Int)
+    (hbytes : Bytes p.headerData) (hsh : ∀ sd, p.shared = some sd → Bytes sd)
+    (hk : ∀ (pk : List Int) (inter : Option (List Int × List Int)), (∀ c ∈ pk, I16 c) →
+      (∀ q, inter = some q → (∀ c ∈ q.1, I16 c) ∧ (∀ c ∈ q.2, I16 c)) →
+      (Checked.tupleScalar pk inter coords).isSome) :
+    ∃ evs l, tvTrace p = some evs ∧ activeTuples p coords = some (.ok l) ∧ l.length ≤ (items evs).length ∧
+      ∀ x ∈ l, x.1 ∈ items evs ∧ x.1.computeScalar p coords = .ok (some x.2) := by
+  obtain ⟨evs, he, _, _, ht, _, _, hall⟩ := tuples_iter_bounded p hac
+  -- every header was read from a suffix of the header data: its bytes are bytes
+  have hsuf : ∀ t ∈ items evs, ∃ d', tvhRead d' p.ac = some t.hdr ∧ Bytes d' := by
+    have := items_all (tvNext p) (fun s => TInv p s ∧ Bytes s.h.data)
+      (fun t => ∃ d', tvhRead d' p.ac = some t.hdr ∧ Bytes d')
+      (fun s hi => ⟨(tvNext_facts p hac s hi.1).1, fun b hb => hi.2 b (tvNext_sub p s b hb)⟩)
+      (fun s a hi hy => ⟨s.h.data, ((tvNext_facts p hac s hi.1).2.2.2.2.2 a hy).1, hi.2⟩)
+      _ _ _ ⟨by simp [TInv, TVD.tuplesInit], by simpa [TVD.tuplesInit] using hbytes⟩ he
+    exact this
+  have hcs : ∀ t ∈ items evs, ∃ r, t.computeScalar p coords = .ok r := by
+    intro t ht'
+    obtain ⟨d', hr, hb⟩ := hsuf t ht'
+    exact computeScalar_facts p t d' hac hr hb hsh coords hk
+  obtain ⟨l, hl, hlen, hmem⟩ := activeFold_ok p coords (items evs) hcs
+  refine ⟨evs, l, he, ?_, hlen, hmem⟩
+  unfold activeTuples
+  rw [he]
+  simp only [ht]
+  exact congrArg some hl
 
 /-! ## non-vacuity -/
 
